@@ -49,3 +49,7 @@ struct splinetable {
 };
 template struct splinetable<void>;
 }
+
+// ENV-1: a routine that switches on flush-to-zero for the rest of the thread
+#include <xmmintrin.h>
+void st_env1_ftz() { _mm_setcsr(_mm_getcsr() | 0x8040); }
